@@ -425,9 +425,215 @@ def zbool_(v):
     return z3.BoolVal(v) if isinstance(v, bool) else v
 
 
+# ====================================================================== (c) the overrides, wiring level
+from pyvc.theory import Theory                 # noqa: E402
+from pyvc.values import NOT_IMPLEMENTED, Value  # noqa: E402
+from theories import pytree as PYT             # noqa: E402
+from theories import trees as TR               # noqa: E402
+
+
+class DenseV(Value):
+    """a dense matrix as the expression that produced it: ('of', operator) — the operator's own as_matrix() (callee
+    contract: Mat(den(operator)), this property for the operand) — ('identity', n, dtype), ('add', A, B), ('inv', A),
+    ('scale', value, A)"""
+
+    def __init__(self, op, *args):
+        self.op, self.args = op, args
+
+    def __repr__(self):
+        return f'<dense {self.op} {self.args}>'
+
+    def sym_eq(self, other):
+        if not isinstance(other, DenseV) or other.op != self.op or len(other.args) != len(self.args):
+            return False
+        return z_and(*[(a is b) if isinstance(a, Obj) or isinstance(b, Obj) else z_eq(a, b)
+                       for a, b in zip(self.args, other.args)])
+
+    def py_binop(self, interp, op, other, refl):
+        if op == 'Mult' and not isinstance(other, (Obj, DenseV)):
+            return DenseV('scale', other, self)
+        if op == 'Add' and isinstance(other, DenseV):
+            a, b = (other, self) if refl else (self, other)
+            return DenseV('add', a, b)
+        return NOT_IMPLEMENTED
+
+
+def install_dense(T):
+    T.externals['jax.numpy.identity'] = lambda interp, n, dtype=None: DenseV('identity', n, dtype)
+    T.externals['jax.numpy.eye'] = lambda interp, n, M=None, k=0, dtype=None: (
+        DenseV('identity', n, dtype) if M is None and k == 0 else DenseV('eye', n, M, k, dtype))
+    T.externals['jax.numpy.add'] = lambda interp, a, b: DenseV('add', a, b)
+    T.externals['jax.numpy.subtract'] = lambda interp, a, b: DenseV('sub', a, b)
+    T.externals['jax.numpy.linalg.inv'] = lambda interp, a: DenseV('inv', a)
+    T.externals['jax.numpy.result_type'] = lambda interp, *xs: ('result_type',) + tuple(
+        interp.getattr(x, 'dtype') for x in xs)
+    return T
+
+
+def build_overrides(ck):
+    from theories import synth
+    P = ck.P
+    Other = synth.concrete_subclass(P, P.cls(f'{CORE}.AbstractLinearOperator'), 'OtherOperator',
+                                    extra_methods=('mv', 'in_structure', 'out_structure', 'as_matrix'))
+    ck.trust('lemma:LA9 Mat is a homomorphism: Mat(sum of maps) = sum of the matrices, Mat(inverse) = inverse of the matrix, '
+             'Mat(k * identity) = k * identity matrix',
+             'lemma:LA6 reshape / ravel are the identity in flattened row-major coordinates (C13 proves that the real mv '
+             'keeps the row-major content and the number of elements of every leaf)')
+    ck.assume_note('C04(c): the operands\' own as_matrix() are their faithful dense forms (this property for the operands: '
+                   'induction hypothesis); DiagonalOperator.as_matrix is proved in C11, SymmetricBandToeplitzOperator.as_matrix '
+                   'in C09, BlockRow/BlockDiagonal/BlockColumn.as_matrix (hstack / block_diag / vstack) belong to C10')
+
+    def other(tag):
+        return Obj(Other, tag=tag)
+    dense_contract = {f'{CORE}.OtherOperator.as_matrix': lambda interp, fi, args, kwargs: DenseV('of', args[0])}
+    # ------------------------------------------------------------------ AdditionOperator / lazy inverse (generic pytrees)
+    T1 = install_dense(PYT.install(Theory()))
+
+    def addition(S):
+        S.oracle = {'name': 'overrides', 'cls': 'AdditionOperator'}
+        k = S.choose(4)
+        a, b, c = other('A'), other('B'), other('C')
+        ops, order = [(B.PyList([a]), [a]), (B.PyList([a, b]), [a, b]), (B.PyList([a, b, c]), [a, b, c]),
+                      ({'a': a, 'b': B.PyList([b, c])}, [a, b, c])][k]
+        S.inputs['operands'] = ['[A]', '[A, B]', '[A, B, C]', "{'a': A, 'b': [B, C]}"][k]
+        o = S.new('AdditionOperator', operands=ops)
+        out = S.call(S.I.getattr(o, 'as_matrix'), [])
+        if not out.normal:
+            S.oblige('exc', False, tag=f'no-exception-{out.value.name}')
+            return
+        expect = DenseV('of', order[0])
+        for t in order[1:]:
+            expect = DenseV('add', expect, DenseV('of', t))
+        S.oblige('post', z_eq(out.value, expect), tag='as_matrix==sum-over-operand_leaves-of-their-as_matrix (pytree order)')
+    ck.explore(f'{CORE}.AdditionOperator.as_matrix', addition, T1, contracts=dense_contract)
+
+    def lazy_inverse(S):
+        S.oracle = {'name': 'overrides', 'cls': 'InverseOperator'}
+        a = other('A')
+        which = S.choose(2)
+        o = S.new(['InverseOperator', 'AbstractLazyInverseOrthogonalOperator'][which], operator=a)
+        out = S.call(S.I.getattr(o, 'as_matrix'), [])
+        if not out.normal:
+            S.oblige('exc', False, tag=f'no-exception-{out.value.name}')
+            return
+        S.oblige('post', z_eq(out.value, DenseV('inv', DenseV('of', a))), tag='as_matrix==inv(operator.as_matrix())')
+    ck.explore(f'{CORE}.AbstractLazyInverseOperator.as_matrix', lazy_inverse, T1, contracts=dense_contract)
+
+    # ------------------------------------------------------------------ identity / scalar / reshape-like (struct facet)
+    T2 = install_dense(TR.install(ST.install(Theory())))
+
+    def small_tree(S, min_dim=0):
+        k = S.choose(3)
+        S.inputs['tree'] = ['leaf', 'list of 2', 'dict of 3'][k]
+        leaves = [ST.LeafV(z3.Const(f'in{i}', ST.Leaf)) for i in range(k + 1)]
+        for lf in leaves:
+            S.assume(lf.wf(min_dim))
+        return (leaves[0] if k == 0 else ST.StructV(SSeq.lift(leaves, 'list'))), leaves
+
+    def sizes_and_dtype(S, o, leaves, tagp):
+        """real bodies of in_size / out_size / the promoted dtypes against the definitions"""
+        total = sum((ST.f_size(lf.term) for lf in leaves[1:]), ST.f_size(leaves[0].term))
+        rt = ('result_type',) + tuple(ST.f_dtype(lf.term) for lf in leaves)
+        n_in, n_out = S.call(S.I.getattr(o, 'in_size'), []), S.call(S.I.getattr(o, 'out_size'), [])
+        d_in, d_out = S.call(S.func(f'{CORE}.AbstractLinearOperator.in_promoted_dtype'), [o]), \
+            S.call(S.func(f'{CORE}.AbstractLinearOperator.out_promoted_dtype'), [o])
+        ok = all(x.normal for x in (n_in, n_out, d_in, d_out))
+        S.oblige('exc', ok, tag=f'{tagp}:sizes-and-promoted-dtypes-are-computed')
+        if not ok:
+            return None
+        S.oblige('post', z_eq(n_in.value, total), tag=f'{tagp}:in_size==sum-of-the-input-leaf-sizes')
+        S.oblige('post', z_eq(d_in.value, rt), tag=f'{tagp}:in_promoted_dtype==result_type(input leaves)')
+        return n_in.value, n_out.value, d_in.value, d_out.value
+
+    def square_dense(clsname):
+        def sc(S):
+            S.oracle = {'name': 'overrides', 'cls': clsname}
+            tree, leaves = small_tree(S)
+            value = z3.Real('value')
+            o = S.new(clsname, _in_structure=tree)
+            if clsname == 'HomothetyOperator':
+                o.fields['value'] = value
+            r = sizes_and_dtype(S, o, leaves, clsname)
+            if r is None:
+                return
+            n_in, n_out, d_in, d_out = r
+            S.oblige('post', z_eq(n_out, n_in), tag='square:out_size==in_size')
+            S.oblige('post', z_eq(d_out, d_in), tag='square:out_promoted_dtype==in_promoted_dtype')
+            out = S.call(S.I.getattr(o, 'as_matrix'), [])
+            if not out.normal:
+                S.oblige('exc', False, tag=f'no-exception-{out.value.name}')
+                return
+            ident = DenseV('identity', n_in, d_out)
+            expect = ident if clsname == 'IdentityOperator' else DenseV('scale', value, ident)
+            S.oblige('post', z_eq(out.value, expect),
+                     tag='as_matrix==identity(in_size, out_promoted_dtype)' if clsname == 'IdentityOperator'
+                     else 'as_matrix==value*identity(in_size, out_promoted_dtype)')
+        return sc
+    for clsname in ('IdentityOperator', 'HomothetyOperator'):
+        ck.explore(f'{CORE}.{clsname}.as_matrix', square_dense(clsname), T2)
+
+    AX = 'furax._base.axes'
+
+    def keeps_leaves(interp, fi, args, kwargs):
+        """callee contract of RavelOperator.mv / ReshapeOperator.mv (proved in C13, scenarios ravel_mv / reshape_mv, for
+        every leaf accepted by the constructor): leaf by leaf, same tree, same number of elements, same dtype, same
+        row-major content"""
+        x = args[1]
+
+        def one(lf):
+            r = ST.LeafV.fresh('relabelled')
+            interp.run.assume(z3.And(ST.f_size(r.term) == ST.f_size(lf.term), ST.f_dtype(r.term) == ST.f_dtype(lf.term),
+                                     ST.f_data(r.term) == ST.f_data(lf.term), ST.f_ndim(r.term) >= 0))
+            return r
+        if isinstance(x, ST.LeafV):
+            return one(x)
+        return ST.StructV(SSeq.lift([one(lf) for lf in x.leaves.py_items()], 'list'), x.treedef, x.single)
+
+    def reshape_like(which):
+        def sc(S):
+            S.oracle = {'name': 'overrides', 'cls': which}
+            tree, leaves = small_tree(S)
+            if which == 'RavelOperator':
+                o = S.new(which, first_axis=S.int('first_axis'), last_axis=S.int('last_axis'), _in_structure=tree)
+            else:
+                o = S.new(which, shape=S.seq('shape'), _in_structure=tree)
+            r = sizes_and_dtype(S, o, leaves, which)
+            if r is None:
+                return
+            n_in, n_out, d_in, d_out = r
+            S.oblige('post', z_eq(n_out, n_in), tag='out_size==in_size (every leaf keeps its number of elements)')
+            S.oblige('post', z_eq(d_out, d_in), tag='out_promoted_dtype==in_promoted_dtype (every leaf keeps its dtype)')
+            out = S.call(S.I.getattr(o, 'as_matrix'), [])
+            if not out.normal:
+                S.oblige('exc', False, tag=f'no-exception-{out.value.name}')
+                return
+            S.oblige('post', z_eq(out.value, DenseV('identity', n_in, d_out)),
+                     tag='as_matrix==identity(in_size, out_promoted_dtype) (LA6)')
+        return sc
+    relabel = {f'{AX}.RavelOperator.mv': keeps_leaves, f'{AX}.ReshapeOperator.mv': keeps_leaves}
+    for which in ('RavelOperator', 'ReshapeOperator'):
+        ck.explore(f'{AX}.AbstractRavelOrReshapeOperator.as_matrix', reshape_like(which), T2, label=which, contracts=relabel)
+
+    # ------------------------------------------------------------------ which classes override as_matrix at all
+    base = P.cls(f'{CORE}.AbstractLinearOperator')
+    covered_here = {'AdditionOperator', 'IdentityOperator', 'HomothetyOperator', 'AbstractLazyInverseOperator',
+                    'AbstractRavelOrReshapeOperator'}
+    elsewhere = {'DiagonalOperator': 'C11', 'SymmetricBandToeplitzOperator': 'C09', 'BlockRowOperator': 'C10',
+                 'BlockDiagonalOperator': 'C10', 'BlockColumnOperator': 'C10'}
+    table = {}
+    for c in sorted(P.classes.values(), key=lambda c: c.name):
+        if base in c.mro and c is not base and ('as_matrix' in c.methods or 'as_matrix' in c.patched):
+            where = 'C04(c)' if c.name in covered_here else elsewhere.get(c.name)
+            table[c.name] = where or 'NOT COVERED'
+            if where is None:
+                ck._undecided(f'{c.name}.as_matrix', 'overrides', 'as_matrix override without a scenario (new override?)')
+    ck.samples.append({'as_matrix_overrides': table})
+
+
 def build(ck):
     from props import C08
     C08.patch_class_table(ck.P)        # the decorators' rewiring (square / symmetric / orthogonal), real bodies
     build_linearity(ck)
     build_point_linearity(ck)
     build_generic(ck)
+    build_overrides(ck)
